@@ -23,6 +23,7 @@ import numpy as np
 from harness.common import rat, parse_rat, parse_rat_list, MachineryError
 
 TOL = 1e-9
+TFX_BUDGET = 700        # sub-samples (x internal samples on the impulse-response branch) per exactly evaluated transfer-function bin
 IR_BUDGET = 1600        # internal samples x sub-samples up to which the impulse-response branch is recomputed
 
 
@@ -118,7 +119,7 @@ def gen_case(rng, big=False):
         ratio = [0.75, 1.0, 1.5, 2.0, 4.0, 8.0, 0.5, 0.25][int(rng.integers(0, 8))]
     dx = ratio * lam
     dy = dx if rng.random() < 0.6 else dx * [0.5, 0.75, 1.25, 1.5, 2.0][int(rng.integers(0, 5))]
-    n = [1.0, 1.0, 1.25, 1.5, 2.0][int(rng.integers(0, 5))]
+    n = [1.0, 1.0, 1.25, 1.5, 2.0, 0.75, 0.5, 0.875][int(rng.integers(0, 8))]      # n < 1: plasma / X-ray media; the regime is worded with the vacuum wavelength
     lmax = max(nx * dx, ny * dy)
     zmax = min(dx, dy) * lmax / lam           # |z| <= zmax  <=>  transfer-function branch
     r = rng.random()
@@ -130,6 +131,9 @@ def gen_case(rng, big=False):
         z = 0.0
     else:
         z = zmax * (1 + int(rng.integers(1, 33)) / 8.0)
+    if n < 1 and rng.random() < 0.5:
+        # inside the stated regime (vacuum wavelength) but beyond the limit a medium-wavelength criterion would put at n*zmax
+        z = zmax * (n + (1 - n) * int(rng.integers(1, 17)) / 16.0)
     if rng.random() < 0.5:
         z = -z
     if kind == 'fresnel':
@@ -191,29 +195,92 @@ def gen_case(rng, big=False):
             'wf': wf, 'stokes': stokes, 'fseed': int(rng.integers(0, 2 ** 31))}
 
 
-def gen_small_fresnel(rng):
-    """A Fresnel propagator on the transfer-function branch small enough for the exact propagation of the model (driver op `prop`)."""
+def gen_small_fresnel(rng, budget=9000, ir=False):
+    """A Fresnel propagator small enough for the exact propagation of the model (driver op `prop`), on either branch of the regime switch."""
     while True:
         case = gen_case(rng)
-        nx, ny = [(2, 2), (3, 3), (2, 3), (3, 2), (4, 4), (4, 3), (2, 4), (5, 2), (3, 5), (5, 5)][int(rng.integers(0, 10))]
+        nx, ny = [(2, 2), (3, 3), (2, 3), (3, 2), (4, 4), (4, 3), (2, 4), (5, 2), (3, 5), (5, 5), (6, 4), (4, 7), (8, 8), (7, 5), (6, 6), (9, 4)][int(rng.integers(0, 16))]
         dx, dy = case['delta']
         q = [1.0, 1.0, 1.5, 2.0, [1.0, 2.0], [2.0, 1.0], 4 / 3][int(rng.integers(0, 7))]
-        s = [1, 1, 2, [1, 2], [2, 1]][int(rng.integers(0, 5))]
+        s = [1, 1, 2, [1, 2], [2, 1], [3, 1], [1, 3]][int(rng.integers(0, 7))]
         zmax = min(dx, dy) * max(nx * dx, ny * dy) / case['lam']
         z = zmax * int(rng.integers(1, 65)) / 64.0 * (1 if rng.random() < 0.5 else -1)
+        if ir or rng.random() < 0.35:
+            z = z * (1 + int(rng.integers(1, 25)) / 8.0)          # beyond the sampling limit: impulse-response branch
         case.update({'kind': 'fresnel', 'dims': [nx, ny], 'q': q, 's': s, 'qspell': None, 'sspell': None, 'z': z, 'z2': z / 4, 'wf': 'scalar', 'stokes': None,
                      'zero': [-dx * (nx - 1) / 2, -dy * (ny - 1) / 2], 'alias': False, 'small': True})
-        if prop_affordable(case):
+        if prop_affordable(case, budget):
+            case['prop_budget'] = budget
             return case
 
 
-def prop_affordable(case):
-    if case['kind'] != 'fresnel' or case['wf'] != 'scalar' or case['z'] == 0:
-        return False
+PROP_MM = 64           # largest internal size My*Mx for which the whole propagation is executed exactly (op `prop`)
+
+
+def prop_cost(case):
+    """Number of term products of the un-memoised exact pipeline: outputs x bins x (transform + transfer-function samples)."""
     reg = exact_regime(case)
     nx, ny = case['dims']
     mm, ss = reg['M'][0] * reg['M'][1], sxy(case)[0] * sxy(case)[1]
-    return (not reg['ir']) and mm <= 36 and nx * ny * mm * mm * ss <= 9000
+    # (on the impulse-response branch every transfer-function value is a sum of up to mm*ss distinct phases: the products are merged
+    #  term by term, measured ~4x the cost of the count of products)
+    return nx * ny * mm * (mm + (4 * mm * ss if reg['ir'] else ss)), mm
+
+
+def prop_affordable(case, budget=12000):
+    if case['kind'] != 'fresnel' or case['wf'] != 'scalar' or case['z'] == 0:
+        return False
+    cost, mm = prop_cost(case)
+    return mm <= PROP_MM and cost <= budget
+
+
+def gen_peraxis(rng):
+    """Per-axis num_oversampling (sx != sy) on a non-square grid with unequal pixels and per-axis / one-axis padding: every place where the
+    x and the y parameters could be exchanged is asymmetric.  Oracle: the transposed problem gives the transposed answer."""
+    case = gen_case(rng)
+    nx, ny = [(2, 3), (3, 2), (4, 6), (6, 4), (5, 8), (8, 5), (3, 7), (7, 4), (6, 11), (9, 5)][int(rng.integers(0, 10))]
+    s = [[1, 2], [2, 1], [3, 1], [1, 3], [2, 3], [3, 2]][int(rng.integers(0, 6))]
+    dx = case['delta'][0]
+    dy = dx * [0.5, 0.75, 1.25, 1.5, 2.0, 1.0][int(rng.integers(0, 6))]
+    kind = 'fresnel' if rng.random() < 0.7 else 'angular'
+    q = [1.0, 2.0, 1.5, [1.0, 2.0], [2.0, 1.0], [1.5, 1.0], [2.0, 3.0]][int(rng.integers(0, 7))] if kind == 'fresnel' else 2.0
+    zmax = min(dx, dy) * max(nx * dx, ny * dy) / case['lam']
+    z = zmax * int(rng.integers(1, 65)) / 64.0 * (1 if rng.random() < 0.5 else -1)
+    if rng.random() < 0.25:
+        z = z * (1 + int(rng.integers(1, 17)) / 8.0)
+    case.update({'kind': kind, 'dims': [nx, ny], 'delta': [dx, dy], 'q': q, 's': s, 'z': z, 'z2': z / 4, 'wf': ['scalar', 'scalar', 'jones'][int(rng.integers(0, 3))],
+                 'stokes': None, 'qspell': 'array' if isinstance(q, list) else None, 'sspell': ['array', 'list', 'tuple'][int(rng.integers(0, 3))],
+                 'zero': [-dx * (nx - 1) / 2, -dy * (ny - 1) / 2], 'alias': False, 'peraxis': True})
+    return case
+
+
+def transposed_case(case):
+    sw = lambda v: [v[1], v[0]] if isinstance(v, list) else v
+    return dict(case, dims=sw(case['dims']), delta=sw(case['delta']), zero=sw(case['zero']), q=sw(case['q']), s=sw(case['s']), alias=False)
+
+
+def oracle_transpose(case, obs):
+    """forward on the transposed grid (x and y exchanged in dims, delta, zero_padding, num_oversampling) of the transposed field is the
+    transposed output."""
+    bad = []
+    tc = transposed_case(case)
+    grid = build_grid(tc)
+    nx, ny = case['dims']
+    ex = np.asarray(obs['ex'])
+    ts = ex.shape[:-1]
+    xt = np.swapaxes(ex.reshape(ts + (ny, nx)), -1, -2).reshape(ts + (nx * ny,))
+    import hcipy
+    try:
+        out = np.asarray(build_prop(tc, grid, tc['z']).forward(hcipy.Wavefront(hcipy.Field(xt, grid), tc['lam'])).electric_field)
+    except Exception as e:
+        return [('raises %s transposed' % type(e).__name__, 'propagation of the transposed problem raised %s: %s' % (type(e).__name__, e))]
+    back = np.swapaxes(out.reshape(ts + (nx, ny)), -1, -2).reshape(ts + (nx * ny,))
+    ref = np.asarray(obs['efx'])
+    d = float(np.abs(back - ref).max())
+    if not d <= TOL * max(1.0, float(np.abs(ref).max())):
+        bad.append(('axis-exchange %s per-axis' % case['kind'], 'exchanging x and y everywhere (dims, delta, zero_padding %r, num_oversampling %r) '
+                    'does not transpose the result: deviation %.3g' % (case['q'], case['s'], d)))
+    return bad
 
 
 def directed():
@@ -439,7 +506,7 @@ def model_requests(case, obs, rng, head=None):
     # impulse-response branch: the whole sampled impulse response (small internal grids only)
     # the whole propagation computed exactly by the model (small Fresnel cases on the transfer-function branch)
     obs['prop_req'] = []
-    if prop_affordable(case) and obs.get('ex') is not None and np.asarray(obs['ex']).ndim == 1:
+    if prop_affordable(case, case.get('prop_budget', 12000)) and obs.get('ex') is not None and np.asarray(obs['ex']).ndim == 1:
         for back, e_in, e_out in ((0, obs['ex'], obs['efx']), (1, obs.get('ey'), obs.get('eby'))):
             if e_in is not None and all(float(v * 16).is_integer() for v in np.concatenate([np.asarray(e_in).real, np.asarray(e_in).imag])):
                 lines.append('C04 prop %d %s %s' % (back, '[%s]' % ','.join(rat(float(v)) for v in np.asarray(e_in).real),
@@ -449,6 +516,14 @@ def model_requests(case, obs, rng, head=None):
     if obs['reg']['ir'] and case['z'] != 0 and M[0] * M[1] * sxy(case)[0] * sxy(case)[1] <= IR_BUDGET:
         for jy in range(M[1]):
             lines.append('C04 ir %d' % jy)
+    # the transfer function of the Fresnel propagator *with the regime switch*, exactly (op `tfx`), at the sampled bins
+    obs['tfx_req'] = []
+    if case['kind'] == 'fresnel' and case['z'] != 0 and not obs['near_boundary']:
+        per_bin = M[0] * M[1] * sxy(case)[0] * sxy(case)[1] if obs['reg']['ir'] else sxy(case)[0] * sxy(case)[1]
+        if per_bin <= TFX_BUDGET:
+            for qx, qy in (pix if per_bin <= 64 else pix[:3]):
+                lines.append('C04 tfx %d %d' % (qx, qy))
+                obs['tfx_req'].append((qx, qy))
     return lines, pix
 
 
@@ -536,7 +611,9 @@ def compare_model(ctx, case, obs, pix, answers):
     npr = len(obs.get('prop_req', []))
     st_answers = answers[2 + len(pix):1 + obs['n_fixed'] - npr]
     pr_answers = answers[1 + obs['n_fixed'] - npr:1 + obs['n_fixed']]
-    ir_rows = answers[1 + obs['n_fixed']:]
+    ntfx = len(obs.get('tfx_req', []))
+    ir_rows = answers[1 + obs['n_fixed']:len(answers) - ntfx]
+    tfx_answers = answers[len(answers) - ntfx:] if ntfx else []
     # the exact propagation of the model (formal phase sums, evaluated here) against forward() / backward() of the real propagator
     for resp, (back, real) in zip(pr_answers, obs.get('prop_req', [])):
         if not resp.startswith('ok'):
@@ -544,7 +621,8 @@ def compare_model(ctx, case, obs, pix, answers):
         got = np.array([sum((float(parse_rat(c)) * np.exp(2j * np.pi * float(parse_rat(t))) for c, t in (term.split(':') for term in pix_.split(',') if term)), 0j)
                         for pix_ in resp.split('out=', 1)[1].split(';')])
         ctx.traces_validated += 1
-        ctx.count('fresnel-propagation-executed(prop):' + ('backward' if back else 'forward'))
+        ctx.count('fresnel-propagation-executed(prop):' + ('backward' if back else 'forward') + ('/impulse-response' if reg['ir'] else '/transfer-function'))
+        ctx.count('fresnel-propagation-executed(prop) My*Mx<=%d' % (16 if model_M[0] * model_M[1] <= 16 else 36 if model_M[0] * model_M[1] <= 36 else 64 if model_M[0] * model_M[1] <= 64 else 256))
         if got.shape != real.shape or not np.abs(got - real).max() <= 1e-10 * max(1.0, float(np.abs(real).max())):
             ctx.disagree('C04 executed Fresnel propagation', {'case': case, 'direction': 'backward' if back else 'forward',
                                                               'max_dev': float(np.abs(got - real).max()) if got.shape == real.shape else None})
@@ -559,6 +637,16 @@ def compare_model(ctx, case, obs, pix, answers):
             ctx.count('skipped:pixel-on-evanescent-boundary')
             continue
         worst = max(worst, abs(complex(raw[qy, qx]) - want) / max(1.0, abs(want)))
+    # the exactly evaluated transfer function with the regime switch (`fresnelTFSwitched`) against the array the real filter multiplies with
+    for (qx, qy), resp in zip(obs.get('tfx_req', []), tfx_answers):
+        if not resp.startswith('ok'):
+            raise MachineryError('C04 tfx: driver answered %r for %r' % (resp, case))
+        got = sum((float(parse_rat(c)) * np.exp(2j * np.pi * float(parse_rat(t))) for c, t in (term.split(':') for term in resp.split('out=', 1)[1].split(',') if term)), 0j)
+        ctx.traces_validated += 1
+        ctx.count('switched-transfer-function-executed(tfx):' + ('impulse-response' if reg['ir'] else 'transfer-function'))
+        if not abs(got - complex(raw[qy, qx])) <= 1e-9 * max(1.0, abs(got)):
+            ctx.disagree('C04 executed switched transfer function', {'case': case, 'bin': [qx, qy], 'model': [got.real, got.imag],
+                         'impl': [float(raw[qy, qx].real), float(raw[qy, qx].imag)], 'branch': 'ir' if reg['ir'] else 'tf'})
     # Stokes-I polynomial of the model against Wavefront.I
     for resp, real_I in zip(st_answers, obs.get('stokes_req', [])):
         ks = _kv(resp)
@@ -658,7 +746,7 @@ def gen_session(rng, big=False):
                 v = zmax * int(rng.integers(1, 65)) / 64.0 if r < 0.55 else (zmax * (1 + int(rng.integers(1, 17)) / 8.0) if r < 0.9 else 0.0)
                 v = -v if rng.random() < 0.5 else v
             elif name == 'refractive_index':
-                v = [1.0, 1.25, 1.5, 2.0][int(rng.integers(0, 4))]
+                v = [1.0, 1.25, 1.5, 2.0, 0.75, 0.5][int(rng.integers(0, 6))]
             elif name == 'num_oversampling':
                 v = int(rng.integers(1, 4)) if rng.random() < 0.7 else [[1, 2], [2, 1], [3, 2]][int(rng.integers(0, 3))]
             elif name == 'zero_padding':
@@ -1335,6 +1423,76 @@ def run_dsessions(ctx):
             k = next((i for i, (g, w) in enumerate(zip(got, want)) if g != w), min(len(got), len(want)))
             ctx.disagree('C04 dtype bookkeeping', {'dsession': ds, 'call': k, 'impl': got[k] if k < len(got) else None, 'model': want[k] if k < len(want) else ans})
 
+# ---------------------------------------------------------------------------------------------
+# absorbing medium: complex refractive index n + i kappa, kappa > 0 (oracle only: the model's index is rational)
+
+def gen_ccase(rng):
+    case = gen_case(rng)
+    nx, ny = case['dims']
+    dx, dy = case['delta']
+    zmax = min(dx, dy) * max(nx * dx, ny * dy) / case['lam']
+    z = zmax * int(rng.integers(1, 65)) / 64.0 * (1 if rng.random() < 0.5 else -1)
+    case.update({'z': z, 'z2': z / 4, 'wf': 'scalar', 'stokes': None, 'alias': False, 'n_im': [1 / 256, 1 / 64, 1 / 32, 1 / 8][int(rng.integers(0, 4))]})
+    return case
+
+
+def oracle_ccase(case):
+    import hcipy
+    bad = []
+    grid = build_grid(case)
+    w = float(np.asarray(grid.weights).ravel()[0])
+    reg = exact_regime(case)
+    kind, z = case['kind'], case['z']
+    cn = complex(case['n'], case['n_im'])
+
+    def mk(zz):
+        if kind == 'fresnel':
+            return hcipy.FresnelPropagator(grid, zz, num_oversampling=spell(case['s'], case.get('sspell'), integer=True),
+                                           zero_padding=spell(case['q'], case.get('qspell')), refractive_index=cn)
+        return hcipy.AngularSpectrumPropagator(grid, zz, num_oversampling=spell(case['s'], case.get('sspell'), integer=True), refractive_index=cn)
+    x, y = make_field(case, grid, 0), make_field(case, grid, 1)
+    try:
+        prop = mk(z)
+        wfx = hcipy.Wavefront(x.copy(), case['lam'])
+        fx = prop.forward(wfx)
+        fy = prop.forward(hcipy.Wavefront(y.copy(), case['lam']))
+        by = prop.backward(hcipy.Wavefront(y.copy(), case['lam']))
+        bx = prop.backward(hcipy.Wavefront(x.copy(), case['lam']))
+        fm = mk(-z).forward(hcipy.Wavefront(x.copy(), case['lam']))
+        a, b = 0.5 - 1.25j, -2.0 + 0.75j
+        comb = prop.forward(hcipy.Wavefront(a * x + b * y, case['lam']))
+    except Exception as e:
+        return [('raises %s complex-index %s' % (type(e).__name__, kind), 'propagation in an absorbing medium raised %s: %s' % (type(e).__name__, e))]
+    efx, efy = np.asarray(fx.electric_field), np.asarray(fy.electric_field)
+    scale = max(1.0, float(np.abs(efx).max()), float(np.abs(efy).max()))
+    lin = float(np.abs(np.asarray(comb.electric_field) - (a * efx + b * efy)).max())
+    if not lin <= TOL * 4 * scale:
+        bad.append(('linear complex-index ' + kind, 'forward(a x + b y) differs from a forward(x) + b forward(y) by %.3g (n=%r)' % (lin, cn)))
+    lhs, rhs = inner(np.asarray(y), efx, w), inner(np.asarray(by.electric_field), np.asarray(x), w)
+    if not abs(lhs - rhs) <= TOL * max(1.0, abs(lhs), abs(rhs)):
+        bad.append(('adjoint complex-index ' + kind, '<y, forward x> = %r but <backward y, x> = %r (n=%r)' % (lhs, rhs, cn)))
+    if reg['stated'] and z != 0 and abs(reg['slack']) > Fraction(1, 10 ** 7) * max(Fraction(case['delta'][0]), Fraction(case['delta'][1])):
+        # passive medium (Im n > 0): the regime clauses
+        pre = 'complex-index-fresnel-negative-z ' if kind == 'fresnel' else 'complex-index '
+        p_in, p_out = float(wfx.total_power), float(fx.total_power)
+        if not p_out <= p_in * (1 + TOL) + TOL:
+            bad.append(((pre if z < 0 else 'complex-index ') + 'power-increase ' + kind,
+                        'total power %r -> %r in an absorbing medium n=%r, adequately sampled (z=%r)' % (p_in, p_out, cn, z)))
+        d = float(np.abs(np.asarray(fm.electric_field) - np.asarray(bx.electric_field)).max())
+        if not d <= TOL * max(1.0, float(np.abs(np.asarray(bx.electric_field)).max())):
+            bad.append((pre + 'neg-z ' + kind, 'forward(-z) differs from backward(+z) by %.3g in an absorbing medium n=%r (z=%r)' % (d, cn, z)))
+    return bad
+
+
+def run_ccases(ctx):
+    for _ in range(ctx.scale(40, 500)):
+        case = gen_ccase(ctx.rng)
+        for key, what in oracle_ccase(case):
+            ctx.violation(key, what, case)
+        ctx.count('complex-index:%s z%s' % (case['kind'], '+' if case['z'] > 0 else '-'))
+        ctx.case({k: case[k] for k in ('kind', 'dims', 'delta', 'lam', 'z', 'n', 'n_im', 'q', 's')},
+                 nontrivial_key=('complex-index', case['kind'], tuple(case['dims']), case['z'] > 0, case['n'], case['n_im'], _vkey(case['q']), _vkey(case['s'])))
+
 
 def run(ctx):
     ctx.rule = ('Fresh FresnelPropagator / AngularSpectrumPropagator per case on regular grids 2..16 per axis (thorough ..24; odd, even, '
@@ -1348,6 +1506,9 @@ def run(ctx):
     n = ctx.scale(1400, 20000)
     cases = directed() + [gen_case(ctx.rng, big=(ctx.tier == 'thorough' and k % 4 == 0)) for k in range(n)]
     cases += [gen_small_fresnel(ctx.rng) for _ in range(ctx.scale(40, 500))]
+    cases += [gen_small_fresnel(ctx.rng, budget=b) for b in [36000] * ctx.scale(6, 20) + [300000] * ctx.scale(2, 4)]       # up to My*Mx = 64
+    cases += [gen_small_fresnel(ctx.rng, budget=36000, ir=True) for _ in range(ctx.scale(12, 40))]
+    cases += [gen_peraxis(ctx.rng) for _ in range(ctx.scale(60, 800))]
     all_lines, spans, kept = [], [], []
     with warnings.catch_warnings():
         warnings.simplefilter('ignore')
@@ -1378,8 +1539,15 @@ def run(ctx):
             sig = (case['kind'], tuple(case['dims']), reg['ir'], reg['stated'], _vkey(case['q']), _vkey(case['s']), case['wf'], case['z'] > 0, case['n'])
             ctx.case({k: case[k] for k in ('kind', 'dims', 'delta', 'lam', 'z', 'n', 'q', 's', 'wf')} if case['z'] != 0 else None,
                      nontrivial_key=sig if case['z'] != 0 else None)
+            ctx.count('refractive-index:' + ('n<1' if case['n'] < 1 else 'n=1' if case['n'] == 1 else 'n>1') +
+                      ('/in-band(n*zmax,zmax]' if case['n'] < 1 and not reg['ir'] and exact_regime(dict(case, lam=case['lam'] / case['n']))['ir'] else ''))
             if 'prop' not in obs:
                 continue
+            if case.get('peraxis'):
+                ctx.count('per-axis-oversampling non-square:%s s=%s%s' % (case['kind'], 'sx<sy' if case['s'][0] < case['s'][1] else 'sx>sy',
+                                                                      '/per-axis-q' if isinstance(case['q'], list) else ''))
+                for key, what in oracle_transpose(case, obs):
+                    ctx.violation(key, what, case)
             lines, pix = model_requests(case, obs, ctx.rng)
             spans.append((len(all_lines), len(lines)))
             all_lines += lines
@@ -1422,6 +1590,7 @@ def run(ctx):
         run_mcases(ctx)
         run_fcases(ctx)
         run_dsessions(ctx)
+        run_ccases(ctx)
     if ctx.boundary_skipped > 0.10 * max(1, ctx.evaluations):
         raise MachineryError('too many boundary-skipped cases (%d of %d)' % (ctx.boundary_skipped, ctx.evaluations))
 
@@ -1429,7 +1598,12 @@ def run(ctx):
 def replay(ctx, case):
     with warnings.catch_warnings():
         warnings.simplefilter('ignore')
-        bad = oracle_session(case['session']) if 'session' in case else oracle_dsession(case['dsession']) if 'dsession' in case else (oracle_mcase(case['mcase']) if 'mcase' in case else (oracle_fcase(case['fcase']) if 'fcase' in case else oracle_case(case)))
+        bad = oracle_ccase(case) if 'n_im' in case else oracle_session(case['session']) if 'session' in case else oracle_dsession(case['dsession']) if 'dsession' in case else (oracle_mcase(case['mcase']) if 'mcase' in case else (oracle_fcase(case['fcase']) if 'fcase' in case else oracle_case(case)))
+        if isinstance(case, dict) and case.get('peraxis') and 'n_im' not in case:
+            obs = {}
+            bad = oracle_case(case, observe=obs)
+            if 'prop' in obs:
+                bad = bad + oracle_transpose(case, obs)
     for key, what in bad:
         print('  fails:', key, '-', what)
     return not bad
